@@ -288,7 +288,7 @@ func c10(c *Ctx) {
 				resp, err := rawHTTP(sc.Verb, gs.URL, sc.Target, hdr, body)
 				c.R.Eval(1)
 				if err != nil {
-					c.R.Inconclusive(caseID, "http:"+err.Error())
+					transportFailure(c, ch, nil, caseID, err, map[string]any{"target": sc.Target})
 					continue
 				}
 				evs, _ := syncEvents(ch)
@@ -319,13 +319,24 @@ func c10(c *Ctx) {
 			if sc.RawOnly || sc.Msg == nil {
 				continue
 			}
-			for _, ct := range cts[:2] {
+			// content-type arrangements: client-level only, and a per-call override that differs from it
+			type ctArr struct{ Label, CT, CallCT string }
+			arrs := []ctArr{{"json", "application/json", ""}, {"x-protobuf", "application/x-protobuf", ""},
+				{"client=default,call=x-protobuf", "", "application/x-protobuf"}, {"client=json,call=x-protobuf", "application/json", "application/x-protobuf"},
+				{"client=x-protobuf,call=json", "application/x-protobuf", "application/json"}}
+			for _, ct := range arrs {
 				caseID := fmt.Sprintf("err/go-client/%s/%s", sc.Source, ct.Label)
 				if !c.Want(caseID) {
 					continue
 				}
 				gs.Script("", scriptWithCustom(sc.Script, customWire))
-				opts := map[string]any{"ct": ct.CT}
+				opts := map[string]any{}
+				if ct.CT != "" {
+					opts["ct"] = ct.CT
+				}
+				if ct.CallCT != "" {
+					opts["callct"] = ct.CallCT
+				}
 				if !sc.NoKey {
 					opts["chelpers"] = []map[string]string{{"K": "X-Key", "V": "k"}}
 				}
@@ -335,7 +346,7 @@ func c10(c *Ctx) {
 					c.R.Inconclusive(caseID, "call:"+err.Error())
 					continue
 				}
-				rp := map[string]any{"proto": protoText, "source": sc.Source, "content_type": ct.CT, "client_return": out.Ret}
+				rp := map[string]any{"proto": protoText, "source": sc.Source, "client_content_type": ct.CT, "per_call_content_type": ct.CallCT, "client_return": out.Ret}
 				for _, e := range out.byKind("wire") {
 					rp["wire_status"] = e["status"]
 					rp["wire_response_body"] = string(unb64(e.Str("resp_body")))
